@@ -165,7 +165,8 @@ def c10_rotation(rng, tier):
 # ---------------------------------------------------------------------------------------
 # coupled models: C02 (totals), C12 (fixed point), structural parts of C04 / C07
 # ---------------------------------------------------------------------------------------
-def _as_surface(rng, tier, sym=None, ny=None, **kw):
+def _as_surface(rng, tier, sym=None, ny=None, fem="tube", **kw):
+    """fem: 'tube', 'wingbox' or 'random' (one third wingbox)"""
     from openaerostruct.geometry.utils import generate_mesh
     sym = bool(rng.integers(2)) if sym is None else sym
     ny = ny or int(rng.choice([3, 4, 5]))
@@ -184,7 +185,23 @@ def _as_surface(rng, tier, sym=None, ny=None, **kw):
         s["S_ref_type"] = st
     if "k_lam" not in kw:
         s["k_lam"] = float(rng.choice([0.05, 0.0, 0.5, 1.0], p=[0.4, 0.3, 0.2, 0.1]))
+    u = rng.uniform()
+    if fem == "wingbox" or (fem == "random" and u < 1.0 / 3.0):
+        s["fem_model_type"] = "wingbox"
+        s.pop("thickness_cp", None)
+        s.update(data_x_upper=np.linspace(0.1, 0.6, 6), data_x_lower=np.linspace(0.1, 0.6, 6),
+                 data_y_upper=np.array([0.05, 0.06, 0.065, 0.065, 0.06, 0.05]), data_y_lower=-np.array([0.05, 0.06, 0.065, 0.065, 0.06, 0.05]),
+                 original_wingbox_airfoil_t_over_c=0.12, strength_factor_for_upper_skin=float(rng.choice([1.0, 1.25])),
+                 t_over_c_cp=np.array([0.12, 0.1]), spar_thickness_cp=rng.uniform(0.004, 0.01, size=3),
+                 skin_thickness_cp=rng.uniform(0.005, 0.015, size=3), Wf_reserve=500.0, fuel_density=803.0)
     return s
+
+
+def _thk(s):
+    """promoted name and value of the structural thickness design variable of a surface"""
+    if s["fem_model_type"] == "wingbox":
+        return "wing.spar_thickness_cp", s["spar_thickness_cp"]
+    return "wing.thickness_cp", s["thickness_cp"]
 
 
 def _as_flow(rng, **kw):
@@ -200,10 +217,12 @@ _AS_OF = ["CL", "CD", "CM", "fuelburn", "L_equals_W", "wing_perf.failure", "tota
 @oracle("C02", "aerostruct_totals_fwd_rev_fd")
 def c02_aerostruct(rng, tier):
     relief = bool(rng.integers(2))
-    s = _as_surface(rng, tier, struct_weight_relief=relief, with_wave=bool(rng.integers(2)), chord_cp=np.array([1.0, 1.0]))
+    s = _as_surface(rng, tier, struct_weight_relief=relief, with_wave=bool(rng.integers(2)), chord_cp=np.array([1.0, 1.0]), fem="random")
     flow = _as_flow(rng)
     ofs = ["AS_point_0." + o for o in _AS_OF if o != "total_perf.wing_structural_mass"] + ["wing.structural_mass"]
-    wrt = ["alpha", "Mach_number", "v", "rho", "load_factor", "wing.thickness_cp", "wing.twist_cp", "wing.geometry.chord_cp"]
+    wrt = ["alpha", "Mach_number", "v", "rho", "load_factor", _thk(s)[0], "wing.twist_cp", "wing.geometry.chord_cp"]
+    if s["fem_model_type"] == "wingbox":
+        wrt.append("wing.skin_thickness_cp")
     from . import oracles as _o
     lin = ["lbgs", "krylov", "direct"][_o.CURRENT_K % 3]       # every solver is exercised in both modes in every run
     rng.choice(["direct", "lbgs", "krylov"])                    # (keeps the random stream of earlier versions)
@@ -219,7 +238,7 @@ def c02_aerostruct(rng, tier):
                 nonconv[mode] = str(ex)[:200]
     out = []
     case = dict(ny=s["mesh"].shape[1], symmetry=s["symmetry"], linear_solver=lin, weight_relief=relief, load_factor=flow["load_factor"],
-                k_lam=s.get("k_lam"), S_ref_type=s.get("S_ref_type"))
+                k_lam=s.get("k_lam"), S_ref_type=s.get("S_ref_type"), fem_model_type=s["fem_model_type"])
     if nonconv:
         if lin == "lbgs" and len(nonconv) == 1:
             # the block Gauss-Seidel iterations of the two modes act on transposed systems (same spectrum): when one mode converges
@@ -251,11 +270,13 @@ def c02_aerostruct(rng, tier):
     ok, msg = core.close_jac(res["fwd"], res["rev"], rtol=tol_lin, fvals=fv, xvals=xv, noise=1e-9)
     if not ok:
         out.append(_fail("forward and reverse mode totals differ", msg, "equal", **case))
+    Jref = res["fwd"]
     # direct solver reference
     if lin != "direct":
         p = pipelines.build_aerostruct([s], [flow], linear="direct", mode="fwd")
         with quiet():
             p.run_model(); Jd = p.compute_totals(of=ofs, wrt=wrt, return_format="array")
+        Jref = Jd          # the finite-difference comparison below uses the directly solved totals
         ok, msg = core.close_jac(res["fwd"], Jd, rtol=tol_lin, fvals=fv, xvals=xv, noise=1e-9)
         if not ok:
             out.append(_fail("totals depend on the linear solver attached to the coupled group", msg, "equal", **case))
@@ -279,7 +300,7 @@ def c02_aerostruct(rng, tier):
             d1 = (f(name, at(x0 + h)) - f(name, at(x0 - h))) / (2 * h); d2 = (f(name, at(x0 + h / 2)) - f(name, at(x0 - h / 2))) / h
             fd = (4 * d2 - d1) / 3
             f(name, xfull)
-            an = res["fwd"][:, col]
+            an = Jref[:, col]
             sc2 = max(np.max(np.abs(fd)), np.max(np.abs(an)), 1e-30)
             if np.max(np.abs(fd - an)) > 2e-5 * sc2:
                 out.append(_fail("total derivatives w.r.t. %s differ from finite differences of the converged analysis" % name,
@@ -346,7 +367,7 @@ def c12_fixed_point(rng, tier):
     from openaerostruct.transfer.load_transfer import LoadTransfer
     from . import oracles as _o
     rng.integers(2)
-    s = _as_surface(rng, tier, struct_weight_relief=bool(_o.CURRENT_K % 2 == 0))     # alternates between the cases of a run
+    s = _as_surface(rng, tier, struct_weight_relief=bool(_o.CURRENT_K % 2 == 0), fem="random")     # relief alternates between the cases
     surfs = [s]
     if rng.uniform() < 0.5:
         # a second surface (tail) with its own spar location; same mesh shape as the wing half of the time
@@ -395,8 +416,8 @@ def c12_fixed_point(rng, tier):
     # path independence: visit another design point first
     p2 = pipelines.build_aerostruct(surfs, [flow])
     with quiet():
-        p2.set_val("alpha", flow["alpha"] + 3.0); p2.set_val("wing.thickness_cp", s["thickness_cp"] * 0.6); p2.run_model()
-        p2.set_val("alpha", flow["alpha"]); p2.set_val("wing.thickness_cp", s["thickness_cp"]); p2.run_model()
+        p2.set_val("alpha", flow["alpha"] + 3.0); p2.set_val(_thk(s)[0], _thk(s)[1] * 0.6); p2.run_model()
+        p2.set_val("alpha", flow["alpha"]); p2.set_val(_thk(s)[0], _thk(s)[1]); p2.run_model()
     if relerr(vec(p2), ref) > 1e-6:
         out.append(_fail("converged state depends on the previously analysed design point", vec(p2)[:6], ref[:6], **case))
     # ... and one that differs in a single flight-condition input only (the structure and the meshes stay what they were)
